@@ -38,7 +38,7 @@ PROPS = {
         trusted=["OS file system and mmap below the modelled append/rename semantics"],
     ),
     "C08": dict(
-        lean_modules=["Liftbridge.Props.C08", "Liftbridge.Props.CleanRace", "Liftbridge.Props.GoCompact"],
+        lean_modules=["Liftbridge.Props.C08", "Liftbridge.Props.CleanRace", "Liftbridge.Props.GoCompact", "Liftbridge.Props.GoRevScan"],
         gen_sources=["server/commitlog/compact_cleaner.go"],
         go_pkg="./server/commitlog", test="TestVerifC08",
         level="proof",
@@ -57,7 +57,7 @@ PROPS = {
     "C10": dict(
         # Props.GoSubscribe: the model's stop-position table = the translated body of partition.getStopOffset
         # Props.GoTimestamps: the model's timestamp look-ups = the translated bodies of EarliestOffsetAfterTimestamp / LatestOffsetBeforeTimestamp
-        lean_modules=["Liftbridge.Props.C10", "Liftbridge.Props.GoSubscribe", "Liftbridge.Props.GoTimestamps"],
+        lean_modules=["Liftbridge.Props.C10", "Liftbridge.Props.GoSubscribe", "Liftbridge.Props.GoTimestamps", "Liftbridge.Props.GoRevScan"],
         gen_sources=LOG_SOURCES + ["server/partition.go:partition.getStopOffset", "server/partition.go:gomini:partition.getStopOffset", "server/partition.go:partition.Subscribe",
                                    "server/partition.go:partition.newSubscribeLoop", "server/commitlog/commitlog.go:commitLog.EarliestOffsetAfterTimestamp", "server/commitlog/commitlog.go:gomini:commitLog.EarliestOffsetAfterTimestamp",
                                    "server/commitlog/commitlog.go:gomini:commitLog.LatestOffsetBeforeTimestamp"],
